@@ -19,6 +19,15 @@ Cases ==
       nside |-> 160 + 40 * ((c + 2 * h) % 4), open |-> FALSE] : c \in Chords, h \in Cambers, p \in Pairs} \cup
     {[m |-> "airfoil", op |-> "config", chord |-> c, camber |-> h, thick |-> 6, le |-> l, te |-> t,
       orient |-> "tmax", face |-> "upper", nside |-> 200, open |-> TRUE] : c \in Chords, h \in Cambers, l \in {"fit", "intersect", "trace"}, t \in OpenM} \cup
+    \* thin nose / thick tail: station spacing is far from uniform, the orientation must still follow the arc length
+    {[m |-> "airfoil", op |-> "config", chord |-> c, camber |-> h, thick |-> 6, le |-> p[1], te |-> p[2],
+      orient |-> "tmax", face |-> "upper", nside |-> 240, open |-> FALSE, prof |-> 1] : c \in Chords, h \in Cambers, p \in {<<"intersect", "intersect">>, <<"fit", "const">>}} \cup
+    \* symmetric sections (straight camber) with the tangent-convergence method at either end
+    {[m |-> "airfoil", op |-> "config", chord |-> c, camber |-> 0, thick |-> 7, le |-> p[1], te |-> p[2],
+      orient |-> "dir", face |-> "upper", nside |-> 200, open |-> FALSE] : c \in Chords, p \in {<<"converge", "intersect">>, <<"intersect", "converge">>}} \cup
+    \* sections open at the leading edge
+    {[m |-> "airfoil", op |-> "config", chord |-> c, camber |-> h, thick |-> 6, le |-> l, te |-> t,
+      orient |-> "dir", face |-> "upper", nside |-> 200, open |-> TRUE, front |-> TRUE] : c \in Chords, h \in Cambers, t \in {"fit", "intersect"}, l \in OpenM} \cup
     {[m |-> "airfoil", op |-> "livelock"]}
 Init == case \in Cases
 Next == UNCHANGED case
